@@ -115,8 +115,10 @@ def build_model(c):
         m.add_reaction("rc", F.cond_expr, args=["x1", "k2"], stoichiometry={"x1": -1})
     elif c["ct"] == "time":
         m.add_reaction("rt", F.ma1_t, args=["x1", "k1", "time"], stoichiometry={"x1": -1, xs[-1]: 1} if n > 1 else {"x1": -1})
-    if c["untr"]:
+    if c["untr"] == 1:
         m.add_reaction("ru", F.loop_fn, args=["x1", "k1"], stoichiometry={"x1": -1})
+    elif c["untr"]:
+        m.add_reaction("ru", F.EDGE_FNS[c["untr"] - 2], args=["x1", "k1"], stoichiometry={"x1": -1})
     return m
 
 
@@ -129,6 +131,9 @@ def generate(tier):
     base = {"untouched": "no", "coef": "one", "ptype": "float", "ia": 0, "ct": "none", "untr": 1}
     for nvars, derived, free in it.product(slots["nvars"], slots["derived"], slots["free"]):
         shapes.append({**base, "nvars": nvars, "derived": derived, "free": free})
+    # functions at the edge of the subset: refuse, or emit code with the function's value
+    for untr, nvars, free in it.product(range(2, 2 + len(F.EDGE_FNS)), slots["nvars"], slots["free"]):
+        shapes.append({**base, "untr": untr, "nvars": nvars, "derived": "none", "free": free})
     # numeric coefficients of every kind (the quick product above carries only 1, 2 and 0.5)
     for coef, nvars, untouched, derived, free in it.product(("neg", "irr", "tiny", "third"), (1, 2), ("no", "first"), ("none", "chain"), slots["free"]):
         sh = {**base, "untr": 0, "coef": coef, "nvars": nvars, "untouched": untouched, "derived": derived, "free": free}
@@ -203,7 +208,9 @@ def verdict(case, lang, prep):
     nt = is_nontrivial(case)
     g = prep["gen"][lang]
     txt = f"lang={lang} shape={case}"
-    if case["untr"]:
+    if case["untr"] > 1 and "raised" in g:
+        return outcome(True, "refused", nontrivial=nt)  # edge of the subset: refusing is fine, wrong code is not
+    if case["untr"] == 1:
         if "raised" in g:
             return outcome(True, "refused", nontrivial=nt)
         return outcome(False, "emitted-for-untranslatable", symptom=f"emitted-for-untranslatable:{lang}", nontrivial=nt,
@@ -335,7 +342,7 @@ def check(case):
 
 
 def _jl(case):
-    return case.get("family") != "rebind" and case["lang"] == "jl" and not case["untr"]
+    return case.get("family") != "rebind" and case["lang"] == "jl" and case["untr"] != 1  # every program that is emitted for Julia
 
 
 def _ia_free(case):
